@@ -22,7 +22,7 @@ theorem tauActions_isTau {s : State} {a : Action} (h : a ∈ tauActions s) : a.i
     rcases ha with rfl | rfl <;> rfl
   · simp only [List.mem_cons, List.not_mem_nil, or_false] at ha
     rcases ha with rfl | rfl | rfl | rfl | rfl | rfl | rfl | rfl | rfl | rfl | rfl | rfl | rfl | rfl |
-      rfl | rfl | rfl | rfl | rfl | rfl | rfl | rfl <;> rfl
+      rfl | rfl | rfl | rfl | rfl | rfl | rfl | rfl | rfl <;> rfl
 
 /-- reachability by internal steps only -/
 def TauReach (v : Variant) (cap : Nat) (s s' : State) : Prop := Trace v cap s [] s'
@@ -178,6 +178,7 @@ theorem fire_step {v cap} {s s' : State} {ev : Event} (h : s' ∈ fire v cap s e
     exact Or.inr ⟨_, hx⟩
   | mark p k => exact Or.inr ⟨_, by simpa [fire] using h⟩
   | pClose k => exact Or.inr ⟨_, by simpa [fire] using h⟩
+  | pReset k => exact Or.inr ⟨_, by simpa [fire] using h⟩
   | accept k => exact Or.inr ⟨_, by simpa [fire] using h⟩
   | recv k id => exact Or.inr ⟨_, by simpa [fire] using h⟩
   | probe c q f n =>
